@@ -30,22 +30,8 @@ def canon_atom(fi: Optional[FunctionInfo], e: ast.AST, stop: Iterable[str] = ())
             e = inline(e, fi, stop=stop)
         except Exception:
             pass
-    flip = False
-    while isinstance(e, ast.UnaryOp) and isinstance(e.op, ast.Not):
-        e = e.operand
-        flip = not flip
-    if isinstance(e, ast.Compare) and len(e.ops) == 1:
-        op, l, r = e.ops[0], e.left, e.comparators[0]
-        if type(op) in _FLIP:
-            op = _FLIP[type(op)]()
-            flip = not flip
-        if type(op) in _SWAP:
-            op = _SWAP[type(op)]()
-            l, r = r, l
-        if isinstance(op, (ast.Eq, ast.Is)) and ast.unparse(l) > ast.unparse(r):
-            l, r = r, l
-        e = ast.Compare(left=l, ops=[op], comparators=[r])
-    return ast.unparse(e), flip
+    from .peff import canon
+    return canon(e)
 
 
 def key(text: str) -> str:
@@ -90,9 +76,31 @@ def decisions(ctx: Ctx, fi: FunctionInfo, opaque: Optional[Callable[[ast.AST], b
     return out
 
 
+class OneOf:
+    """An expected outcome with alternatives."""
+
+    def __init__(self, *alts):
+        self.alts = list(alts)
+
+    def __eq__(self, other):
+        return any(a == other for a in self.alts)
+
+    def __ne__(self, other):
+        return not self.__eq__(other)
+
+    def __repr__(self):
+        return " | ".join(repr(a) for a in self.alts)
+
+    __hash__ = None
+
+
 def check_table(decs: Sequence[Decision], atoms: Sequence[str], spec: Callable[[Dict[str, bool]], Any], outcome: Callable[[Decision], Any],
-                dont_care: Iterable[str] = ()) -> Tuple[List[str], List[str]]:
-    """Returns (violations, unknowns).  *atoms* are canonical keys; spec(total assignment) -> expected outcome or IGNORE."""
+                dont_care: Iterable[str] = (), equiv: Optional[Dict[str, Tuple[str, bool]]] = None, strict_foreign: bool = False) -> Tuple[List[str], List[str]]:
+    """Returns (violations, unknowns).  *atoms* are canonical keys; spec(total assignment) -> expected outcome or IGNORE.
+    equiv: other spellings of a specification atom {text: (atom, same polarity?)} (library knowledge, e.g. 'len(p.components) > 1' == 'p.value is not None').
+    strict_foreign: a path whose outcome differs from the specification is a violation even when it also tests conditions the specification does not know
+    (they are treated as independent of the specification's atoms)."""
+    eq = {key(k): (key(a), pol) for k, (a, pol) in (equiv or {}).items()}
     given = list(atoms)
     atoms = [key(a) for a in atoms]
     back = dict(zip(atoms, given))
@@ -109,8 +117,18 @@ def check_table(decs: Sequence[Decision], atoms: Sequence[str], spec: Callable[[
         got = outcome(d)
         if got is IGNORE:
             continue
-        foreign = set(d.assign) - set(atoms) - dont_care
-        part = {a: d.assign[a] for a in atoms if a in d.assign}
+        assign = {}
+        feasible = True
+        for k, v in d.assign.items():
+            if k in eq:
+                k, v = eq[k][0], (v if eq[k][1] else not v)
+            if k in assign and assign[k] != v:
+                feasible = False
+            assign.setdefault(k, v)
+        if not feasible:
+            continue
+        foreign = set(assign) - set(atoms) - dont_care
+        part = {a: assign[a] for a in atoms if a in assign}
         missing = [a for a in atoms if a not in part]
         for bits in itertools.product([False, True], repeat=len(missing)):
             total = dict(part)
@@ -121,7 +139,11 @@ def check_table(decs: Sequence[Decision], atoms: Sequence[str], spec: Callable[[
             covered.add(tuple(sorted(total.items())))
             if got != exp:
                 msg = f"under {_show(total)} the outcome is {got!r}, expected {exp!r}"
-                if foreign:
+                if foreign and strict_foreign:
+                    msg += f" (the path also tests {sorted(foreign)}, which the specification does not make the outcome depend on)"
+                    if msg not in violations:
+                        violations.append(msg)
+                elif foreign:
                     unknowns.append(msg + f" (path also depends on unrecognised conditions: {sorted(foreign)})")
                 elif msg not in violations:
                     violations.append(msg)
